@@ -14,8 +14,79 @@ EXTRA = [
 ]
 
 
-def run_family(max_size):
+# ---- several methods analysed by ONE process (as analyze_method does): no CFG may contain a statement of another method, and a method's first statement is an entry node
+HCOLS = ["operation", "parent_stmt_id", "stmt_id", "name", "target", "operand", "condition", "body", "then_body", "else_body", "init_body", "condition_prebody",
+         "update_body", "parameters", "receiver_object", "field", "source"]
+
+
+def _row(op, parent, sid, **kw):
+    r = {c: F.NAN for c in HCOLS}
+    r.update(operation=op, parent_stmt_id=parent, stmt_id=sid)
+    r.update(kw)
+    return r
+
+
+def _methods():
+    # (name, method id, parameter rows, body rows, ids of its executable statements, first statement)
+    out = []
+    # void serve() { for (;;) { n = 1; if (c) break; m = 2; } }       C-style for without init/condition/update as FIRST statement of a parameterless method
+    out.append(('serve', 100, None, [_row('for_stmt', 101, 102, body=103), _row('block_start', 102, 103), _row('assign_stmt', 103, 104, target='n', operand='1'),
+                                     _row('if_stmt', 103, 105, condition='c', then_body=106), _row('block_start', 105, 106), _row('break_stmt', 106, 107),
+                                     _row('block_end', 105, 106), _row('assign_stmt', 103, 108, target='m', operand='2'), _row('block_end', 102, 103)],
+                {102, 104, 105, 107, 108}, 102))
+    # void spin() { for (; flag; ) { k = 1; } x = 2; }
+    out.append(('spin', 400, None, [_row('for_stmt', 401, 402, condition='flag', body=403), _row('block_start', 402, 403), _row('assign_stmt', 403, 404, target='k', operand='1'),
+                                    _row('block_end', 402, 403), _row('assign_stmt', 401, 405, target='x', operand='2')], {402, 404, 405}, 402))
+    # void loop() { while (a) { y = 1; } }
+    out.append(('loop', 500, None, [_row('while_stmt', 501, 502, condition='a', body=503), _row('block_start', 502, 503), _row('assign_stmt', 503, 504, target='y', operand='1'),
+                                    _row('block_end', 502, 503)], {502, 504}, 502))
+    # int other(int q) { z = q; return z; }
+    out.append(('other', 200, [_row('parameter_decl', 201, 202, name='q')], [_row('assign_stmt', 204, 206, target='z', operand='q'), _row('return_stmt', 204, 207, name='z')],
+                {202, 206, 207}, 202))
+    # int fourth() { return 4; }
+    out.append(('fourth', 300, None, [_row('return_stmt', 301, 302, name='4')], {302}, 302))
+    # void fifth() { v = 5; }
+    out.append(('fifth', 600, None, [_row('assign_stmt', 601, 602, target='v', operand='5')], {602}, 602))
+    return out
+
+
+def process_history():
+    from lian.basics.control_flow import ControlFlowAnalysis
+    from lian.util.data_model import DataModel
+    from lian.util.gir_block import GIRBlockViewer
+    view = lambda rows: GIRBlockViewer(DataModel(rows, columns=HCOLS)) if rows else GIRBlockViewer(None)
     wit, cases = [], 0
+    import itertools
+    ms = _methods()
+    for order in list(itertools.permutations(range(len(ms)), 3)):
+        cases += 1
+        names = [ms[i][0] for i in order]
+        # a fresh process state cannot be had in-process for mutable defaults: a defect of that kind persists, which is exactly what the later methods then show
+        for i in order:
+            nm, mid, params, body, own, first = ms[i]
+            try:
+                g = ControlFlowAnalysis(F.StubLoader(), mid, view(params), view(body)).analyze()
+            except Exception as e:
+                wit.append(dict(function='ControlFlowAnalysis.analyze_for_stmt', input=f'methods analysed in one process, in order {names}', observed=[f'{nm}: exception {e!r}'],
+                                clauses=['frame:list']))
+                return wit, cases
+            foreign = sorted(n for n in g.nodes() if n != -1 and n not in own)
+            probs = []
+            if foreign:
+                probs.append(f'the CFG of {nm} (statements {sorted(own)}) contains statements of another method: {foreign}, edges {[e for e in g.edges() if e[0] in foreign or e[1] in foreign]}')
+            if first in g.nodes() and any(p_ not in own for p_ in g.predecessors(first)):
+                probs.append(f'the first statement {first} of {nm} is entered from a statement that is not its own: predecessors {sorted(g.predecessors(first))}')
+            if probs:
+                wit.append(dict(function='ControlFlowAnalysis.analyze_for_stmt', input=f'methods analysed in one process, in order {names}', observed=probs[:2], history=names,
+                                clauses=['frame:list', 'no statement of another method', 'first statement is an entry node']))
+                return wit, cases
+    return wit, cases
+
+
+def run_family(max_size):
+    wit, cases = process_history()
+    if wit:
+        return wit, cases
     bodies = list(EXTRA) + list(F.HAND_WRITTEN)
     for size in range(1, max_size + 1):
         bodies += list(F.gen_block(size, 2, False))
@@ -35,11 +106,14 @@ def run_family(max_size):
 
 def search(target, models):
     wit, cases = run_family(3)
-    return dict(witnesses=wit, searched=f'{cases} method bodies (<= 3 AST nodes, loops nested <= 2, plus hand-written and loop-else shapes) x all branch-decision vectors',
+    return dict(witnesses=wit, searched=f'{cases} cases: 120 orders of 3 of 6 small methods (C-style for / while / plain, with and without parameters) analysed in one process; method bodies (<= 3 AST nodes, loops nested <= 2, plus hand-written and loop-else shapes) x all branch-decision vectors',
                 how='real ControlFlowAnalysis.analyze() on GIR rows in a real DataModel/GIRBlockViewer; reference interpreter over the same body')
 
 
 def replay(w):
+    if isinstance(w, dict) and w.get('history'):
+        wit, _ = process_history()
+        return dict(reproduced=bool(wit), detail=wit[:1])
     if isinstance(w, dict) and w.get('body'):
         body = eval(w['body'], {}, {})          # our own repr of a nested tuple/list of strings
         g, probs = F.check_program(body)
@@ -52,7 +126,7 @@ if __name__ == '__main__':
     if '--bounded' in sys.argv:
         n = int(sys.argv[sys.argv.index('--bounded') + 1])
         wit, cases = run_family(n)
-        common.emit(dict(witnesses=wit, cases=cases, bound=f'every method body with <= {n} AST nodes over assignment, if/else, while (cond or literal true), for-in, loop else, break, '
+        common.emit(dict(witnesses=wit, cases=cases, bound=f'120 orders of 3 of 6 small methods analysed in one process (foreign statements / entry node); every method body with <= {n} AST nodes over assignment, if/else, while (cond or literal true), for-in, loop else, break, '
                                                                f'continue, return (loops nested <= 2) + hand-written bodies, all branch-decision vectors (<= 6 decisions)'))
         sys.exit(1 if wit else 0)
     common.main(search, replay)
